@@ -59,9 +59,12 @@ def run_one(ent):
         shutil.rmtree(tmp, ignore_errors=True)
 
 def main():
-    args = sys.argv[1:]; j = 4
-    if args[:1] == ["-j"]: j = int(args[1]); args = args[2:]
-    ents = [e for e in load() if not args or any(a in e[0] for a in args)]
+    args = sys.argv[1:]; j = 4; prop = None
+    while args[:1] and args[0] in ("-j", "-p"):
+        if args[0] == "-j": j = int(args[1])
+        else: prop = args[1]
+        args = args[2:]
+    ents = [e for e in load() if (not args or any(a in e[0] for a in args)) and (prop is None or e[1] == prop)]
     bad = 0
     with cf.ThreadPoolExecutor(max_workers=j) as ex:
         for patch, prop, verdict, info in ex.map(run_one, ents):
